@@ -23,11 +23,13 @@ import (
 	"io"
 	"math"
 	"math/big"
+	"regexp"
 	"strconv"
 	"strings"
 	"time"
 
 	"github.com/biogo/hts/bam"
+	"github.com/biogo/hts/bgzf"
 	"github.com/biogo/hts/sam"
 )
 
@@ -359,6 +361,41 @@ func c06Dump(r *sam.Record, view bool) []string {
 		t[11] = strings.Join(p, ";")
 	}
 	return t
+}
+
+// c06Mem: what the BAM writer reads from a record: name, reference ids, CIGAR words, Doublets, qualities, raw aux.
+func c06Mem(r *sam.Record) string {
+	ref := func(x *sam.Reference) string {
+		if x == nil {
+			return "*"
+		}
+		return strconv.Itoa(x.ID())
+	}
+	cg := "-"
+	if len(r.Cigar) > 0 {
+		p := make([]string, len(r.Cigar))
+		for i, co := range r.Cigar {
+			p[i] = strconv.FormatUint(uint64(uint32(co)), 10)
+		}
+		cg = strings.Join(p, ",")
+	}
+	ds := make([]byte, len(r.Seq.Seq))
+	for i, d := range r.Seq.Seq {
+		ds[i] = byte(d)
+	}
+	q := "nil"
+	if r.Qual != nil {
+		q = hexs(r.Qual)
+	}
+	ax := "-"
+	if len(r.AuxFields) > 0 {
+		p := make([]string, len(r.AuxFields))
+		for i, a := range r.AuxFields {
+			p[i] = hexs(a)
+		}
+		ax = strings.Join(p, ";")
+	}
+	return strings.Join([]string{hexs([]byte(r.Name)), ref(r.Ref), ref(r.MateRef), cg, strconv.Itoa(r.Seq.Length), hexs(ds), q, ax}, " ")
 }
 
 var c06FieldNames = []string{"qname", "flag", "rname", "pos", "mapq", "cigar", "rnext", "pnext", "tlen", "seq", "qual", "aux"}
@@ -760,6 +797,8 @@ func c06FirstDiffField(a, b []byte) string {
 	return "none"
 }
 
+var c06FloatGrammar = regexp.MustCompile(`^[-+]?[0-9]*\.?[0-9]+([eE][-+]?[0-9]+)?$`)
+
 var c06FlagNames = []string{"dec", "hex", "str"}
 
 // c06RecordOracle: the property itself on one expressible record and one parseable flag format.
@@ -813,10 +852,10 @@ func c06RecordOracle(c *ctx, hd []c06Ref, rr c06Rec, h *sam.Header, refs []*sam.
 
 // c06BamTrip writes the records to BAM in memory and reads them back: "" when every record formats to
 // the same SAM line, else a failure class and a description.
-func c06BamTrip(hd []c06Ref, recs []c06Rec) (cls, what string) {
+func c06BamTrip(hd []c06Ref, recs []c06Rec) (cls, what string, bamBytes []byte) {
 	h, refs, err := c06MakeHeader(hd)
 	if err != nil {
-		return "", ""
+		return "", "", nil
 	}
 	var want [][]byte
 	var got [][]byte
@@ -845,6 +884,7 @@ func c06BamTrip(hd []c06Ref, recs []c06Rec) (cls, what string) {
 			werr = err
 			return
 		}
+		bamBytes = append([]byte(nil), buf.Bytes()...)
 		br, err := bam.NewReader(bytes.NewReader(buf.Bytes()), 1)
 		if err != nil {
 			rerr = err
@@ -870,11 +910,11 @@ func c06BamTrip(hd []c06Ref, recs []c06Rec) (cls, what string) {
 	})
 	switch {
 	case o.timedOut:
-		return "hang", "BAM write+read of expressible records does not return"
+		return "hang", "BAM write+read of expressible records does not return", nil
 	case o.panicked:
-		return "panic:" + topRepoFrame(o.stack), "BAM write+read panics: " + o.panicVal
+		return "panic:" + topRepoFrame(o.stack), "BAM write+read panics: " + o.panicVal, nil
 	case werr != nil:
-		return "writeerr", "BAM write fails: " + werr.Error()
+		return "writeerr", "BAM write fails: " + werr.Error(), nil
 	}
 	for i := range want {
 		if i >= len(got) || !bytes.Equal(want[i], got[i]) {
@@ -885,35 +925,166 @@ func c06BamTrip(hd []c06Ref, recs []c06Rec) (cls, what string) {
 			fld := c06FirstDiffField(want[i], g)
 			what := fmt.Sprintf("record %d read back from BAM formats differently at %s: wrote %q, read %q", i, fld, want[i], g)
 			if rerr != nil {
-				return "readerr", what + " (read error: " + rerr.Error() + ")"
+				return "readerr", what + " (read error: " + rerr.Error() + ")", bamBytes
 			}
-			return "line." + fld, what
+			return "line." + fld, what, bamBytes
 		}
 	}
 	if rerr != nil {
-		return "readerr", "BAM read fails: " + rerr.Error()
+		return "readerr", "BAM read fails: " + rerr.Error(), bamBytes
 	} else if len(got) != len(want) {
-		return "count", fmt.Sprintf("wrote %d records, read %d", len(want), len(got))
+		return "count", fmt.Sprintf("wrote %d records, read %d", len(want), len(got)), bamBytes
 	}
-	return "", ""
+	return "", "", bamBytes
 }
 
-// c06BamOracle: records written to BAM and read back format to the same SAM lines.  A failing batch is
-// narrowed to one record and, where one aux field alone reproduces it, to that field: the signature names
-// the field's type (".zero" when an H value contains a zero byte).
+// c06ConformantAux: the aux block of a BAM record written from SAMv1 section 4.2.4 over the description:
+// little-endian numbers, `Z` the text and a NUL, `H` the upper-case hex digits of the bytes and a NUL, `B` the
+// element type, a 32-bit count and the elements.  One byte string per field.
+func c06ConformantAux(rr c06Rec) (fields [][]byte, types []string) {
+	for _, a := range rr.Aux {
+		raw := unhex(a)
+		x, ok := c06DecodeAux(raw)
+		if !ok {
+			continue
+		}
+		f := []byte{x.tag[0], x.tag[1], x.typ}
+		t := string(x.typ)
+		switch x.typ {
+		case 'A':
+			f = append(f, x.data...)
+		case 'c', 'C', 's', 'S', 'i', 'I':
+			f = append(f, c06EncodeInt(x.typ, x.ints[0])...)
+		case 'f':
+			f = append(f, c06EncodeInt('I', int64(x.floats[0]))...)
+		case 'Z':
+			f = append(append(f, x.data...), 0)
+		case 'H':
+			f = append(append(f, strings.ToUpper(hex.EncodeToString(x.data))...), 0)
+		case 'B':
+			t += string(x.sub)
+			n := len(x.ints) + len(x.floats)
+			f = append(f, x.sub, byte(n), byte(n>>8), byte(n>>16), byte(n>>24))
+			for _, v := range x.ints {
+				f = append(f, c06EncodeInt(x.sub, v)...)
+			}
+			for _, v := range x.floats {
+				f = append(f, c06EncodeInt('I', int64(v))...)
+			}
+		}
+		fields = append(fields, f)
+		types = append(types, t)
+	}
+	return
+}
+
+// c06BamAuxBlocks: the aux blocks of the records of a BAM file, located with an own reading of the layout
+// (BGZF is only inflated by the library's reader): magic, l_text, text, n_ref, references, then per record
+// block_size and the 32 fixed bytes, read name, CIGAR, packed sequence, qualities; the rest is the aux block.
+func c06BamAuxBlocks(bamBytes []byte) (blocks [][]byte, err error) {
+	br, err := bgzf.NewReader(bytes.NewReader(bamBytes), 1)
+	if err != nil {
+		return nil, err
+	}
+	defer br.Close()
+	b, err := io.ReadAll(br)
+	if err != nil {
+		return nil, err
+	}
+	le32 := func(off int) int { return int(int32(binary.LittleEndian.Uint32(b[off:]))) }
+	if len(b) < 12 || string(b[:4]) != "BAM\x01" {
+		return nil, fmt.Errorf("no BAM magic")
+	}
+	off := 8 + le32(4)
+	if off+4 > len(b) {
+		return nil, fmt.Errorf("short header")
+	}
+	nref := le32(off)
+	off += 4
+	for i := 0; i < nref; i++ {
+		if off+4 > len(b) {
+			return nil, fmt.Errorf("short reference list")
+		}
+		off += 4 + le32(off) + 4
+	}
+	for off < len(b) {
+		if off+36 > len(b) {
+			return nil, fmt.Errorf("short record")
+		}
+		size := le32(off)
+		body := off + 4
+		if size < 32 || body+size > len(b) {
+			return nil, fmt.Errorf("bad block size %d", size)
+		}
+		lName := int(b[body+8])
+		nCigar := int(binary.LittleEndian.Uint16(b[body+12:]))
+		lSeq := le32(body + 16)
+		aux := body + 32 + lName + 4*nCigar + (lSeq+1)/2 + lSeq
+		if aux > body+size {
+			return nil, fmt.Errorf("fields longer than the block")
+		}
+		blocks = append(blocks, b[aux:body+size])
+		off = body + size
+	}
+	return blocks, nil
+}
+
+// c06BamLayoutCheck: the aux block the library wrote for each record against the conformant encoder's.
+func c06BamLayoutCheck(recs []c06Rec, bamBytes []byte) (cls, what string, culprit *c06Rec) {
+	blocks, err := c06BamAuxBlocks(bamBytes)
+	if err != nil || len(blocks) != len(recs) {
+		return "records", fmt.Sprintf("the written BAM does not parse as %d records by the layout of SAMv1 section 4.2: %v (%d found)", len(recs), err, len(blocks)), nil
+	}
+	for i, rr := range recs {
+		fields, types := c06ConformantAux(rr)
+		got := blocks[i]
+		off := 0
+		for j, f := range fields {
+			if off+len(f) > len(got) || !bytes.Equal(got[off:off+len(f)], f) {
+				end := off + len(f)
+				if end > len(got) {
+					end = len(got)
+				}
+				one := rr
+				one.Aux = []string{rr.Aux[j]}
+				return "aux." + types[j], fmt.Sprintf("record %d aux field %d (type %s): BAM bytes % x, SAMv1 section 4.2.4 says % x", i, j, types[j], got[off:end], f), &one
+			}
+			off += len(f)
+		}
+		if off != len(got) {
+			return "aux.trailing", fmt.Sprintf("record %d: %d bytes after the last aux field", i, len(got)-off), nil
+		}
+	}
+	return "", "", nil
+}
+
+// c06BamOracle: (1) records written to BAM and read back format to the same SAM lines; a failing batch is
+// narrowed to one record and, where one aux field alone reproduces it, to that field: signature
+// c06.bam.roundtrip.aux.<type> (".zero" when an H value contains a zero byte).  (2) Independently of the
+// library's reader: the aux block of every written record equals the one an encoder written from the
+// specification produces (signature c06.bam.layout.aux.<type>).
 func c06BamOracle(c *ctx, hd []c06Ref, recs []c06Rec) {
-	cls, what := c06BamTrip(hd, recs)
+	cls, what, bamBytes := c06BamTrip(hd, recs)
+	if bamBytes != nil {
+		if lc, lw, one := c06BamLayoutCheck(recs, bamBytes); lc != "" {
+			in := c06Input{Kind: "bam", Header: hd, Recs: recs}
+			if one != nil {
+				in.Recs = []c06Rec{*one}
+			}
+			c.res.fail("c06.bam.layout."+lc, lw, in)
+		}
+	}
 	if cls == "" {
 		return
 	}
 	in := c06Input{Kind: "bam", Header: hd, Recs: recs}
 	for _, rr := range recs {
-		if c1, w1 := c06BamTrip(hd, []c06Rec{rr}); c1 != "" {
+		if c1, w1, _ := c06BamTrip(hd, []c06Rec{rr}); c1 != "" {
 			cls, what, in.Recs = c1, w1, []c06Rec{rr}
 			for _, a := range rr.Aux {
 				one := rr
 				one.Aux = []string{a}
-				if c2, w2 := c06BamTrip(hd, []c06Rec{one}); c2 != "" {
+				if c2, w2, _ := c06BamTrip(hd, []c06Rec{one}); c2 != "" {
 					x, _ := c06DecodeAux(unhex(a))
 					t := string(x.typ)
 					if x.typ == 'B' {
@@ -929,7 +1100,7 @@ func c06BamOracle(c *ctx, hd []c06Ref, recs []c06Rec) {
 			break
 		}
 	}
-	c.res.fail("c06.bam."+cls, what, in)
+	c.res.fail("c06.bam.roundtrip."+cls, what, in)
 }
 
 // c06RunReader: successive Read results, in the driver's syntax.
@@ -1620,6 +1791,16 @@ func (x *c06Run) recordCase(hd []c06Ref, rr c06Rec, judge bool) {
 		_, st, _ := c06Marshal(r, f)
 		x.model(st, "c06.fmt %d %s %s", f, tab, toks)
 	}
+	// the memory form the BAM codec sees (tie of Hts.Model.SamBam.toBam): only for well-formed aux and 4-bit op types
+	memOK := true
+	for _, a := range auxs {
+		if _, ok := c06DecodeAux(a); !ok {
+			memOK = false
+		}
+	}
+	if memOK {
+		x.model("ok "+c06Mem(r), "c06.mem %s", toks)
+	}
 	expr := c06HeaderOK(hd) && c06Expressible(hd, rr)
 	if spec, ok := c06SpecLine(hd, rr, false); ok {
 		x.model("ok "+hexs(spec)+" "+fmt.Sprint(expr), "c06.spec %s %s %s", c06HeaderTok(hd, false), tab, toks)
@@ -1643,6 +1824,14 @@ func (x *c06Run) recordCase(hd []c06Ref, rr c06Rec, judge bool) {
 					c.res.disagree("C06.floatlaw", fmt.Sprintf("%08x", b), txt, "parse(fmt b) = b, no TAB/comma")
 				}
 				c.res.hist("floatlaw.sampled")
+				// the SAM grammar of a float value; NaN and the infinities have no SAM text at all (the grammar has
+				// digits only), the library prints them as Go does (NaN, +Inf, -Inf) and reads them back
+				if b&0x7f800000 == 0x7f800000 {
+					c.res.hist("float.nonfinite.no-sam-text")
+				} else if !c06FloatGrammar.MatchString(txt) {
+					c.res.fail("c06.spec.float.grammar", fmt.Sprintf("float32 %08x prints as %q, not in [-+]?[0-9]*\\.?[0-9]+([eE][-+]?[0-9]+)?", b, txt),
+						c06Input{Kind: "record", Header: hd, Rec: &rr})
+				}
 			}
 		}
 	}
@@ -1858,7 +2047,7 @@ func checkC06(c *ctx) {
 		"lines: assembled field by field from valid and boundary texts (hex/octal/binary/underscore integers, long CIGAR ops, = and * mates) with one in six mutated " +
 		"(dropped field, truncation, byte edits); aux and CIGAR texts also go to ParseAux/ParseCigar directly. reader: inputs of 0..6 lines of expressible records, " +
 		"LF/CRLF/mixed, with/without final newline, with header lines or without; a second stream adds empty, malformed and CR-only lines. " +
-		"BAM: batches of expressible records with 32-bit fields written and read back. Non-trivial: a record with a CIGAR, a sequence or an aux field / a line that parses / " +
+		"BAM: batches of expressible records with 32-bit fields written and read back (same lines), the aux block of each written record compared with an independent conformant encoder (SAMv1 4.2.4), and the memory form of every record compared with the model's toBam. Non-trivial: a record with a CIGAR, a sequence or an aux field / a line that parses / " +
 		"a reader input with at least one line; distinct = distinct case text."
 	x := &c06Run{c: c}
 	if c.replay != "" {
